@@ -1,6 +1,7 @@
 """C19 -- Renaming is consistent and capture-free (kernel K9: names)."""
 from __future__ import annotations
 
+import contextlib
 import itertools
 import json
 import random
@@ -221,8 +222,39 @@ def gpos(p):
     return f"({gz(p[0])}, {gz(p[1])})%Z"
 
 
+class Interner:
+    """identifiers are defined once per case file (Coq parses `[109; 121; ...]` slowly)"""
+
+    def __init__(self):
+        self.names = {}
+
+    def __call__(self, s: str) -> str:
+        if s not in self.names:
+            self.names[s] = f"i{len(self.names)}"
+        return self.names[s]
+
+    def header(self) -> str:
+        return "".join(f"Definition {v} : ident := {common.gtext(k)}.\n" for k, v in self.names.items())
+
+
+_PLAIN = common.gtext
+
+
 def gident(s: str) -> str:
-    return common.gtext(s)
+    return _CURRENT(s)
+
+
+_CURRENT = _PLAIN
+
+
+@contextlib.contextmanager
+def interning(it):
+    global _CURRENT
+    old, _CURRENT = _CURRENT, it
+    try:
+        yield it
+    finally:
+        _CURRENT = old
 
 
 def modl_coq(m) -> str:
@@ -681,3 +713,533 @@ def sweep_cases():
     for tname, tpl in TEMPLATES.items():
         for a, b in NAME_PAIRS:
             yield tname, a, b, tpl.format(A=a, B=b)
+
+
+# ---------------------------------------------------------------------------------------------
+# part 4: generated names (RenameModel.v part C)
+
+IF_TEMPLATE = """import random
+def do_stuff(v):
+    return v
+{pre}
+x = 11
+y = 12
+z = random.random()
+if z > 2:
+    do_stuff(x)
+    do_stuff(y - x ** 2)
+    print(do_stuff(x) - do_stuff(y ** y))
+else:
+    do_stuff(y)
+    do_stuff(x - y ** 2)
+    print(do_stuff(y) - do_stuff(x ** x))
+print({post})
+"""
+CONST_A = "(1, 2, 3, 4, 5, 6, 7, 8, 9, 10)"
+CONST_B = "(21, 22, 23, 24, 25, 26, 27, 28, 29)"
+
+
+def generated_name_cases(mods, rnd, tier):
+    """[(kind, coq term of the model's answer check, description, source)]: the names the real rules
+    generate, next to the module's names in use"""
+    fixes, abstractions, core = mods["fixes"], mods["abstractions"], mods["core"]
+    cases = []
+    # _unused_loop_variable_names: direct call
+    letters = "abcdefghijklmnopqrstuvwxyz"
+    all1 = list(letters)
+    all2 = [a + b for a in letters for b in letters]
+    used_sets = [[], ["a"], all1, all1 + all2[:18], all1 + all2[:19], ["b", "aa", "zz", "x_1", "i"]]
+    for _ in range(6 if tier == "quick" else 40):
+        used_sets.append(rnd.sample(all1 + all2[:60], rnd.randint(1, 50)))
+    import keyword
+    for used in used_sets:
+        used[:] = [u for u in used if not keyword.iskeyword(u)]
+        src = "\n".join(f"{u} = 0" for u in used) + "\n" if used else "pass\n"
+        with common.quiet():
+            got = list(itertools.islice(fixes._unused_loop_variable_names(core.parse(src)), 30))
+        cases.append(("loop", used, got, src))
+    # var_n through simplify_if_control_flow
+    var_sets = [[], ["var_1"], ["var_2"], ["var_1", "var_2"], ["var_1", "var_3"], ["var_2", "var_3", "var_4"],
+                ["var_10"], ["Var_1"], ["var_1", "var_2", "var_3", "var_4", "var_5"]]
+    for used in var_sets:
+        pre = "\n".join(f"{u} = 100" for u in used)
+        src = IF_TEMPLATE.format(pre=pre, post=", ".join(used) or "0")
+        core.parse.cache_clear()
+        with common.quiet():
+            new = abstractions.simplify_if_control_flow(src)
+        got = list(dict.fromkeys(re.findall(r"^\s+(var_\d+) = [xy]$", new, flags=re.M)))
+        cases.append(("var", used, got, src))
+    # {value}_{target} through implicit_dict_keys_values_items
+    for used in ([], ["d_k"], ["D_k"], ["d_K"], ["dk"], ["d__k"]):
+        for form in ("comp", "for"):
+            pre = "\n".join(f"{u} = 1000" for u in used)
+            if form == "comp":
+                src = f"d = {{1: 10, 2: 20}}\n{pre}\nprint([d[k] for k in d.keys()], {', '.join(used) or 0})\n"
+            else:
+                src = f"d = {{1: 10, 2: 20}}\n{pre}\nfor k in d.keys():\n    print(d[k])\nprint({', '.join(used) or 0})\n"
+            core.parse.cache_clear()
+            with common.quiet():
+                new = fixes.implicit_dict_keys_values_items(src)
+            got = sorted(set(re.findall(r"\b(d_+k)\b", new)) - set(used)) if ".items()" in new else []
+            cases.append(("keys", used + ["d", "k", "print"], got, src))
+    # overused constants
+    oc = "pyrefact_overused_constant_"
+    oc_sets = [[], [oc + "0"], [oc + "1"], [oc + "0", oc + "1"], [oc + "0", oc + "2"], [(oc + "1").upper()],
+               [oc + str(i) for i in range(11)], [oc + str(i) for i in range(10)], [oc + "1", oc + "2", oc + "3"]]
+    for used in oc_sets:
+        pre = "\n".join(f"{u} = 7" for u in used)
+        fns = "\n".join(f"def f{i}(): return {CONST_A}" for i in range(5)) + "\n" + \
+              "\n".join(f"def g{i}(): return {CONST_B}" for i in range(5))
+        src = f"{pre}\n{fns}\nprint(f0()[0], g0()[0], {', '.join(used) or 0})\n"
+        core.parse.cache_clear()
+        with common.quiet():
+            new = abstractions.overused_constant(src, root_is_static=True)
+        got = [m.lower() for m in re.findall(r"^(\w+) = \(", new, flags=re.M)]
+        cases.append(("overused", used, got, src))
+    return cases
+
+
+import re  # noqa: E402
+
+
+def generated_case_coq(kind, used, got) -> str:
+    g = glist(got, gident)
+    if kind == "loop":
+        return f"(list_eqb (firstn {len(got)} (loop_names {glist(used, gident)})) {g})"
+    if kind == "var":
+        return f"(list_eqb (var_names {glist(used, gident)} {len(got)}) {g} && Nat.eqb {len(got)} 2)"
+    if kind == "keys":
+        want = f"(match keys_items_decision {glist(used, gident)} {common.gtext('d')} {common.gtext('k')} with Some n => [n] | None => [] end)"
+        return f"(list_eqb {want} {g})"
+    # overused: the blacklist holds the lower and upper case variants of every name
+    bl = sorted({u.lower() for u in used} | {u.upper() for u in used} | set(used))
+    return f"(list_eqb (overused_names {glist(bl, gident)} 2) {g})"
+
+
+# ---------------------------------------------------------------------------------------------
+# known findings (signatures keyed by the `sig=` field of KNOWN_FINDINGS.txt)
+
+def _sig_non_ascii_columns(case) -> bool:
+    """the program contains a non-ascii character (ast columns are utf-8 bytes, used as characters)"""
+    return not case["source"].isascii()
+
+
+SIGS = {"non_ascii_columns": _sig_non_ascii_columns}
+# which rules call core.get_charnos on the way (all of them rewrite through processing / _fix_variable_names)
+SITE_OF_RULE = {"align": "core.get_charnos", "undefine": "core.get_charnos", "dup": "core.get_charnos",
+                "format_code": "core.get_charnos"}
+
+
+def match_finding(findings, rule, case):
+    for f in findings:
+        if f.kind != "finding":
+            continue
+        pred = SIGS.get(f.fields.get("sig", ""))
+        if pred is None or f.fields.get("site") != SITE_OF_RULE.get(rule):
+            continue
+        try:
+            if pred(case):
+                return f
+        except Exception:  # noqa
+            continue
+    return None
+
+
+EXTRA_RULES = {
+    "keys": lambda mods, s: mods["fixes"].implicit_dict_keys_values_items(s),
+    "if_flow": lambda mods, s: mods["abstractions"].simplify_if_control_flow(s),
+    "overused": lambda mods, s: mods["abstractions"].overused_constant(s, root_is_static=True),
+}
+
+
+def oracle_any(mods, rule, src, execute=True):
+    if rule in EXTRA_RULES:
+        mods["core"].parse.cache_clear()
+        try:
+            with common.quiet():
+                new = EXTRA_RULES[rule](mods, src)
+        except Exception as e:  # noqa
+            return dict(problem=f"{rule} raised {type(e).__name__}: {e}", output=None)
+        if new == src:
+            return None
+        a, b = run_program(src), run_program(new)
+        return None if a == b else dict(problem=f"behaviour differs: {a!r} -> {b!r}", output=new)
+    if not execute:
+        mods["core"].parse.cache_clear()
+        try:
+            with common.quiet():
+                mods["fixes"].align_variable_names_with_convention(src, preserve=frozenset())
+        except Exception as e:  # noqa
+            return dict(problem=f"{rule} raised {type(e).__name__}: {e}", output=None)
+        return None
+    return oracle(mods, rule, src, structure=(rule == "align"))
+
+
+def naming_property_fails(mods, tag: int, s: str):
+    """the property's own oracle on the real string functions + one end-to-end program"""
+    style = mods["style"]
+    if tag < 4:
+        return None
+    r = impl_naming(style, tag, s)
+    if isinstance(r, tuple):
+        return dict(function=TAGS[tag], input=s, problem=f"raised {r[1]}")
+    if r is None:
+        return None if s == "" else dict(function=TAGS[tag], input=s, problem="ValueError for a non-empty name")
+    if not (r.isidentifier() or r == s):
+        return dict(function=TAGS[tag], input=s, output=r, problem="result is neither an identifier nor the name itself")
+    if tag <= 7:
+        r2 = impl_naming(style, tag, r)
+        if r2 != r:
+            return dict(function=TAGS[tag], input=s, output=r, again=r2, problem="rename_variable is not idempotent on its output")
+    if s.isidentifier() and not __import__("keyword").iskeyword(s) and s.isascii():
+        for tpl in ("func_assign_only", "mod_assign_only", "class_in_func", "func_name"):
+            src = TEMPLATES[tpl].format(A=s, B="other_name")
+            for rule in ("align", "format_code"):
+                f = oracle(mods, rule, src, structure=False) if rule == "format_code" else oracle(mods, rule, src, True)
+                if f and rule == "format_code" and "raised" not in f["problem"]:
+                    continue     # other stages of format_code are not the subject here; crashes are
+                if f:
+                    return dict(function=TAGS[tag], input=s, rule=rule, source=src, **f)
+    return None
+
+
+# ---------------------------------------------------------------------------------------------
+
+
+def random_identifier(rnd: random.Random, non_ascii: bool) -> str:
+    alpha = "abcxyzABCXYZ019__"
+    extra = "éüλ名ßÉ"
+    n = rnd.randint(1, 14)
+    s = "".join(rnd.choice(alpha + (extra if non_ascii else "")) for _ in range(n))
+    return s
+
+
+def check(run: common.Run):
+    wd = common.workdir(PID)
+    ps = common.proof_step(run, PID, wd)
+    mods = common.import_impl()
+    style = mods["style"]
+    rnd = random.Random(run.seed)
+    hist = Counter()
+    files, meta = [], []          # meta[i] = (kind, payload) to decode the bad indices of files[i]
+    distinct = set()
+    evaluations = 0
+
+    # ---- A. string functions: exhaustive blocks
+    blocks = naming_blocks(run.tier)
+    n_exh = 0
+    for k, b in enumerate(blocks):
+        p, inputs, impl = write_naming_block(wd, k, style, b)
+        files.append(p)
+        meta.append(("naming-block", (inputs, impl)))
+        n_exh += len(inputs)
+        evaluations += len(inputs) * len(TAGS)
+        for tag in (4, 8):
+            for s, r in zip(inputs, impl[tag]):
+                if isinstance(r, str) and r != s:
+                    distinct.add(("naming", r))
+        for tag in range(len(TAGS)):
+            for r in impl[tag]:
+                hist["naming:" + ("ValueError" if r is None else "exception" if isinstance(r, tuple) else "ok")] += 1
+    # ---- A'. random identifiers (ascii) and the non-ascii stream, explicit cases
+    n_rand = 1500 if run.tier == "quick" else 20000
+    rcases = []
+    for i in range(n_rand):
+        s = random_identifier(rnd, non_ascii=(i % 3 == 0))
+        tag = rnd.randrange(len(TAGS))
+        r = impl_naming(style, tag, s)
+        rcases.append((tag, s, r))
+        hist["naming-random:" + ("non-ascii" if not s.isascii() else "ascii")] += 1
+        if isinstance(r, str) and r != s and tag >= 4:
+            distinct.add(("naming", r))
+    for k in range(0, len(rcases), 500):
+        shard = rcases[k:k + 500]
+        body = ";\n ".join(
+            f"({tag}%nat, {common.gtext(s)}, "
+            f"{'None' if (r is None or isinstance(r, tuple)) else '(Some ' + common.gtext(r) + ')'})"
+            for tag, s, r in shard)
+        p = wd / f"naming_rand_{k // 500}.v"
+        p.write_text(NAMING_HDR + f"Definition cases : list (nat * text * option text) := [\n {body}\n].\n"
+                     "Eval vm_compute in (bad_idx case_ok cases).\n")
+        files.append(p)
+        meta.append(("naming-random", shard))
+    evaluations += len(rcases)
+    unexpected_exc = [(TAGS[t], s, r[1]) for t, s, r in rcases if isinstance(r, tuple)]
+
+    # ---- B. the renaming rule and _get_uses_of on generated programs
+    n_prog = 240 if run.tier == "quick" else 3000
+    progs, ghist = gen_programs(rnd, n_prog)
+    hist.update({"program:" + k: v for k, v in ghist.items()})
+    acases, crashes = [], []
+    for i, src in enumerate(progs):
+        mods["core"].parse.cache_clear()
+        preserve = frozenset(rnd.sample(sorted({n.id for n in ast.walk(ast.parse(src)) if isinstance(n, ast.Name)}) or ["x"], 1)) \
+            if i % 5 == 4 else frozenset()
+        try:
+            m, want, gok = impl_align(mods, src, preserve)
+        except Exception as e:  # noqa
+            crashes.append((src, f"{type(e).__name__}: {e}"))
+            continue
+        acases.append((src, preserve, m, want, gok))
+        if want:
+            distinct.add(("align", src))
+        hist["align:renamed-nodes"] += len(want)
+    SH = 20
+    for k in range(0, len(acases), SH):
+        shard = acases[k:k + SH]
+        it = Interner()
+        with interning(it):
+            body = ";\n ".join(align_case_coq(m, pres, want) for (_, pres, m, want, _) in shard)
+        p = wd / f"align_{k // SH}.v"
+        p.write_text(RENAME_HDR + it.header() +
+                     f"Definition cases : list (list ident * modl * list (nat * ident)) := [\n {body}\n].\n"
+                     "Eval vm_compute in (bad_idx align_case_ok cases).\n")
+        files.append(p)
+        meta.append(("align", shard))
+    evaluations += len(acases)
+    n_uses = 0
+    uprogs = progs[: (60 if run.tier == "quick" else 600)]
+    UB = 10
+    for k in range(0, len(uprogs), UB):
+        it = Interner()
+        defs_txt, case_txt, shard = [], [], []
+        with interning(it):
+            for j, src in enumerate(uprogs[k:k + UB]):
+                mods["core"].parse.cache_clear()
+                m, out = impl_uses(mods, src, limit=25)
+                defs_txt.append(f"Definition m{j} : modl := {modl_coq(m)}.\n")
+                for sid, nid, got in out:
+                    if isinstance(got, str):
+                        crashes.append((src, f"_get_uses_of: {got}"))
+                        continue
+                    case_txt.append(f"({sid}%nat, {nid}%nat, m{j}, {glist(got)}%nat)")
+                    shard.append((src, sid, nid, got))
+                    if got:
+                        distinct.add(("uses", src, sid, nid))
+        p = wd / f"uses_{k // UB}.v"
+        p.write_text(RENAME_HDR + it.header() + "".join(defs_txt) +
+                     "Definition cases : list (nat * nat * modl * list nat) := [\n " + ";\n ".join(case_txt) +
+                     "\n].\nEval vm_compute in (bad_idx uses_case_ok cases).\n")
+        files.append(p)
+        meta.append(("uses", shard))
+        n_uses += len(shard)
+    evaluations += n_uses
+
+    # ---- C. generated names
+    gcases = generated_name_cases(mods, rnd, run.tier)
+    it = Interner()
+    with interning(it):
+        body = ";\n ".join(generated_case_coq(k, u, g) for k, u, g, _ in gcases)
+    p = wd / "generated.v"
+    p.write_text(RENAME_HDR + it.header() + f"Definition cases : list bool := [\n {body}\n].\n"
+                 "Eval vm_compute in (bad_idx (fun b => b) cases).\n")
+    files.append(p)
+    meta.append(("generated", gcases))
+    evaluations += len(gcases)
+    for k, u, g, _ in gcases:
+        hist["generated:" + k] += 1
+        if g:
+            distinct.add(("generated", k, tuple(u)))
+
+    # ---- run the model
+    results = common.run_case_files(files)
+    disagreements = []
+    for p, (kind, payload) in zip(files, meta):
+        rc, out = results[p]
+        if kind == "naming-block":
+            lists = re.findall(r"=\s*(\[[^\]]*\]|nil)\s*:\s*list nat", out)
+            if rc != 0 or len(lists) != len(TAGS):
+                disagreements.append(("eval-failed", p.name, out[-1500:]))
+                continue
+            inputs, impl = payload
+            for tag, l in enumerate(lists):
+                for i in [int(x) for x in re.findall(r"\d+", l)]:
+                    if i < len(inputs):
+                        disagreements.append(("naming", dict(function=TAGS[tag], input=inputs[i], impl=impl[tag][i])))
+                    else:
+                        disagreements.append(("eval-failed", p.name, "length mismatch"))
+            continue
+        idx = common.parse_nat_list(out) if rc == 0 else None
+        if idx is None:
+            disagreements.append(("eval-failed", p.name, out[-1500:]))
+            continue
+        for i in idx:
+            c = payload[i]
+            if kind == "naming-random":
+                disagreements.append(("naming", dict(function=TAGS[c[0]], input=c[1], impl=c[2])))
+            elif kind == "align":
+                disagreements.append(("align", dict(source=c[0], preserve=sorted(c[1]), impl=c[3])))
+            elif kind == "uses":
+                disagreements.append(("uses", dict(source=c[0], scope=c[1], node=c[2], impl=c[3])))
+            else:
+                disagreements.append(("generated", dict(kind=c[0], used=c[1], impl=c[2], source=c[3])))
+    for src, pres, m, want, gok in acases:
+        if not gok:
+            disagreements.append(("align", dict(source=src, problem="transactions are not the groups by new name")))
+
+    # ---- D. deterministic sweep of the property oracle + fixed witnesses + known findings
+    kf = common.load_findings(PID)
+    failures, known_hits = [], {}
+    n_sweep = 0
+    for tname, a, b, src in sweep_cases():
+        for rule in ("align", "undefine", "dup"):
+            n_sweep += 1
+            f = oracle(mods, rule, src, structure=(rule == "align"))
+            if f:
+                case = dict(rule=rule, template=tname, names=[a, b], source=src, **f)
+                hit = match_finding(kf, rule, case)
+                if hit:
+                    known_hits.setdefault(hit.id, []).append(case)
+                else:
+                    failures.append(case)
+    hist["sweep:programs"] = n_sweep
+    corpus = json.loads((common.VERIF / "corpus" / "c19" / "fixed.json").read_text())
+    regressions = []
+    for w in corpus:
+        if w["kind"] == "naming":
+            f = naming_property_fails(mods, w["tag"], w["input"])
+        else:
+            f = oracle_any(mods, w["rule"], w["source"], execute=w.get("exec", True))
+            if f and w["rule"] == "format_code" and "raised" not in f["problem"]:
+                f = None
+        if f:
+            regressions.append(dict(fixed_id=w["id"], what=w["what"], **{k: v for k, v in w.items() if k in ("rule", "source", "input")}, **f))
+    for f in kf:
+        if f.kind == "finding":
+            hits = known_hits.get(f.id, [])
+            if hits:
+                h = hits[0]
+                run.known_finding(f.id, f"{f.text} [{len(hits)} sweep programs, e.g. {h['rule']} on template "
+                                        f"{h['template']} with {h['names'][0]!r}: {h['problem']}]")
+            else:
+                common.log(f"note: known finding {f.id} no longer reproduces")
+
+    # ---- failing-input search (only when something above no longer agrees)
+    found = []
+    if disagreements or (ps.get("props") and not ps["props"]["ok"]) or not ps.get("build_ok", True):
+        seen = set()
+        for d in disagreements:
+            if d[0] == "naming":
+                key = (d[1]["function"], d[1]["input"])
+                if key in seen or len(seen) > 400:
+                    continue
+                seen.add(key)
+                f = naming_property_fails(mods, TAGS.index(d[1]["function"]), d[1]["input"])
+                if f:
+                    found.append(dict(kind="property-oracle", site="style." + d[1]["function"], **f))
+            elif d[0] in ("align", "uses") and "source" in d[1]:
+                f = oracle(mods, "align", d[1]["source"], structure=True)
+                if f:
+                    found.append(dict(kind="property-oracle", site="fixes.align_variable_names_with_convention",
+                                      source=d[1]["source"], **f))
+            elif d[0] == "generated":
+                rule = {"var": "if_flow", "keys": "keys", "overused": "overused"}.get(d[1]["kind"])
+                if rule:
+                    f = oracle_any(mods, rule, d[1]["source"])
+                    if f:
+                        found.append(dict(kind="property-oracle", site=rule, source=d[1]["source"], **f))
+            if len(found) >= 3:
+                break
+        if not found:
+            # seeded search: the sweep templates with random adversarial identifier pairs
+            srnd = random.Random(run.seed + 1)
+            pool = [v for b in BASES for v in variants(b)] + [x for x in FIXED_IDS if x.isidentifier()]
+            for _ in range(400 if run.tier == "quick" else 4000):
+                a, b = srnd.sample(pool, 2)
+                tname = srnd.choice(sorted(TEMPLATES))
+                src = TEMPLATES[tname].format(A=a, B=b)
+                try:
+                    compile(src, "<p>", "exec")
+                except SyntaxError:
+                    continue
+                for rule in ("align", "undefine", "dup"):
+                    f = oracle(mods, rule, src, structure=(rule == "align"))
+                    if f and not match_finding(kf, rule, dict(source=src)):
+                        found.append(dict(kind="property-oracle", site=rule, template=tname, names=[a, b], source=src, **f))
+                        break
+                if found:
+                    break
+
+    # ---- verdicts
+    for c in failures[:5]:
+        run.violation(dict(kind="property-oracle", site=c["rule"],
+                           explanation="a renaming rule changed the behaviour or the binding structure of a closed "
+                                       "program and no listed finding matches", **c), True)
+    for r in regressions[:5]:
+        run.violation(dict(kind="fixed-witness-regressed", explanation="the witness of a repaired defect fails again", **r), True)
+    for src, err in crashes[:3]:
+        run.violation(dict(kind="property-oracle", site="fixes.align_variable_names_with_convention", source=src,
+                           problem="the rule raised " + err, explanation="renaming rule crashed on a valid module"), True)
+    for fn, s, cls in unexpected_exc[:3]:
+        run.violation(dict(kind="property-oracle", site="style." + fn, input=s, problem=f"raised {cls}",
+                           explanation="a naming function raised on a name"), True)
+    for f in found[:3]:
+        run.violation(dict(explanation="found by the failing-input search after a proof/correspondence broke", **f), True)
+    if not found and not failures and not regressions:
+        for d in disagreements[:5]:
+            run.violation(dict(kind="correspondence", kernel="K9", part=d[0], detail=d[1:],
+                               explanation="model and implementation disagree; the property oracle found no failing "
+                                           "program (executed + symtable-compared the sweep family and a seeded search)"),
+                          False)
+    if ps.get("props") and not ps["props"]["ok"]:
+        pr = ps["props"]
+        run.violation(dict(kind="proof", file=pr["file"], broken=pr.get("broken"), log=pr["log"],
+                           explanation="a property theorem no longer checks (regenerated BUILTIN_FUNCTIONS / "
+                                       "PYTHON_KEYWORDS tables or changed models)"), bool(found))
+
+    run.coverage.update(
+        evaluations=evaluations + n_sweep,
+        distinct_nontrivial=len(distinct),
+        rule=("string functions: ALL strings of length <= 6 over {a,b,A,B,1,_} (exhaustive, 10 observed functions: "
+              "_list_words, _make_snakecase x2, _make_camelcase, rename_variable x4, rename_class x2) and all strings "
+              f"of length <= {4 if run.tier == 'quick' else 6} over that alphabet + e-acute; seeded random identifiers "
+              "(1/3 with non-ascii letters). Rule: generated modules (every binding form, adversarial identifier "
+              "variants), one pass of align_variable_names_with_convention compared node by node with the model; "
+              "direct _get_uses_of calls for every stored name / def / class and every enclosing scope. Generated "
+              "names through the real rules. Non-trivial = the output differs from the input name (string functions, "
+              "counted by distinct output), at least one node renamed (programs, by source text), a non-empty use "
+              "set (by program, scope, node), a generated name (by kind and names in use)."),
+        samples=[blocks[5][1] + "aB1_", rcases[0][1], rcases[1][1], progs[1][:300], progs[2][:300], gcases[-1][3][:200]],
+        exhaustive=False, exhaustive_strings=n_exh, programs=len(acases), uses_cases=n_uses,
+        sweep=dict(programs=n_sweep, templates=len(TEMPLATES), name_pairs=len(NAME_PAIRS),
+                   rules=["align_variable_names_with_convention", "undefine_unused_variables",
+                          "remove_duplicate_functions"], oracle="exec before/after + symtable bijection",
+                   failures_unmatched=len(failures), failures_known=sum(len(v) for v in known_hits.values())),
+        fixed_witnesses=len(corpus), histogram=dict(hist),
+        correspondence_disagreements=len(disagreements),
+        unmodelled=["parsing.iter_typedefs (type-definition detection, taken as data)",
+                    "processing scheduling of the yielded transactions (property C10)",
+                    "fixes._fix_variable_names text splice of remove_duplicate_functions",
+                    "fixes._iter_unused_names (flow analysis of undefine_unused_variables; oracle sweep only)",
+                    "object_oriented static-method extraction names (oracle sweep not extended to them)",
+                    "abstractions.hash_node alpha-invariant hash"],
+        trusted_base=common.TRUSTED_BASE_COMMON + [
+            "harness/c19.py abstract_module: ast -> (Name occurrences, def/class nodes, other identifier mentions)",
+            "the injective encodings of NamingRun.v / harness encode() and primitive 63-bit integer literals",
+            "identifier mentions: RenameModel.mentions is validated against fixes._iter_identifier_mentions only "
+            "through the rule's output",
+            "symtable + exec of CPython 3.12 as the binding-structure / behaviour oracle",
+            "atomic application of one transaction per new name (C10 theorems) for the end-to-end reading of T19.5/T19.6"],
+    )
+    run.assumptions += [
+        "Unicode decimal digits other than 0-9 in identifiers are outside NamingModel (\\d is modelled as [0-9])",
+        "dynamic access to names (globals()[...], getattr strings, __all__, other modules importing this one) is outside the property",
+        "the rule correspondence uses ascii sources; non-ascii sources are exercised by the string functions and the sweep",
+        "T19.6 reads 'all mentions or none' per identifier; bindings of the same identifier in different scopes are renamed together or not at all",
+    ]
+
+
+def replay(path: str) -> int:
+    data = json.loads(Path(path).read_text())
+    mods = common.import_impl()
+    keys = ("kind", "explanation", "site", "rule", "source", "input", "function", "problem", "output", "part", "detail")
+    print(json.dumps({k: data[k] for k in keys if k in data}, indent=1, ensure_ascii=False))
+    if data.get("source") and data.get("kind") in ("property-oracle", "fixed-witness-regressed"):
+        rule = data.get("rule") or {"fixes.align_variable_names_with_convention": "align"}.get(data.get("site"), data.get("site"))
+        rule = rule if rule in ("align", "undefine", "dup", "format_code") or rule in EXTRA_RULES else "align"
+        print("now:", json.dumps(oracle_any(mods, rule, data["source"]), ensure_ascii=False))
+    elif data.get("function") and data.get("input") is not None:
+        tag = TAGS.index(data["function"])
+        print("now: impl =", impl_naming(mods["style"], tag, data["input"]), "; property:",
+              naming_property_fails(mods, tag, data["input"]))
+    return 0
